@@ -12,11 +12,17 @@ Clauses of the property:
   (2) operators are split by longest match
         C12_operator_longest, C12_operator_exact, C12_operator_never_fails
   (3) printed tokens are read back as themselves
-        C12_unescape_escape, C12_escape_scans (strings/chars, fix F16) …
+        C12_unescape_escape, C12_escape_scans (strings/chars, fix F16),
+        C12_reread_identifier, C12_reread_operator, C12_reread_number, C12_reread_string,
+        C12_reread_rawstring, C12_reread_char, C12_reread_line_comment, C12_reread_block_comment,
+        C12_roundtrip, C12_roundtrip_tokens
+      The well-formedness predicates (what the property calls "C/OKL tokens") are IdentWF, OpWF, NumWF,
+      StrWF, RawWF, ChrWF, LineCommentWF, BlockCommentWF, collected in TokWF; separators are non-empty
+      strings over charcodes::whitespace (ItemWF), a line comment being followed by a newline.
   (T) the source still has the statement shapes the model was written after
         C12_source_shape
 -/
-import OccaProofs.Lemmas.LexProgress
+import OccaProofs.Lemmas.LexRound
 
 namespace Occa.Lex.C12
 open Occa Occa.Gen Occa.Lex
@@ -32,8 +38,8 @@ example : sourceShape.length = 18 := by decide
 theorem C12_total_no_trap (s : Str) : ∃ res, tokenizeBytes s = .ok res :=
   tokenize_total (cstr s) (cstr_noNul s)
 
-example : tokenizeBytes ['"', 'a', 'b', 'c'] = .ok ⟨[], 1⟩ := by decide
-example : tokenizeBytes ['R', '"', 'a'] = .ok ⟨[.str 1 [] []], 1⟩ := by decide
+example : tokenizeBytes [DQ, 'a', 'b', 'c'] = .ok ⟨[], 1⟩ := by decide
+example : tokenizeBytes ['R', DQ, 'a'] = .ok ⟨[.str 1 [] []], 1⟩ := by decide
 
 /-- (1) progress: on every position that is not the end of the source, `getToken` returns and has consumed
     at least one character — the measure that bounds the `isEmpty()` loop. -/
@@ -91,7 +97,7 @@ theorem C12_unescape_escape {q : Char} (hq : q ≠ '\\') (hn : q ≠ NUL) {v : S
     unescape q (escape q v) = v :=
   unescape_escape hq hn h
 
-example : ValUnits '"' ['"', 'a', '\\', '\\', '"'] :=
+example : ValUnits DQ [DQ, 'a', '\\', '\\', DQ] :=
   Units.plain (by decide) (by decide) (Units.plain (by decide) (by decide)
     (Units.pair (by decide) (Units.plain (by decide) (by decide) Units.nil)))
 
@@ -105,5 +111,128 @@ theorem C12_escape_scans {q : Char} (hq : q ≠ '\\') (hn : q ≠ NUL) {v : Str}
   unfold skipTo
   rw [skipUntil_units _ hu']
   exact skipUntil_stop r hq (by simp)
+
+/-- (3) the well-formedness predicate of string values is exactly the scanner's range: every value that
+    `getString` produces from NUL-free text lies in `ValUnits` (and therefore, by C12_reread_string,
+    survives printing and re-reading) -/
+theorem C12_string_value_in_range {r : Str} (hn : NoNul r) {v : Str} {e : Nat} {r' : Str}
+    (h : getString 0 (DQ :: r) = .ok (v, true, e, r')) : ValUnits DQ v :=
+  getString_range hn h
+
+example : getString 0 [DQ, 'a', '\\', DQ, DQ, 'x'] = .ok (['a', DQ], true, 0, ['x']) := by decide
+
+/-! ### per-kind re-read theorems: a printed token followed by a separator character `c` (any of
+    `charcodes::whitespace`) is read back by `getToken` as exactly that token, with no error, leaving the
+    position on `c` -/
+
+/-- (3) identifiers (not operator words, not `true`/`false`; `true1`, `L`, `u8` are fine: FL2, FL3) -/
+theorem C12_reread_identifier {w : Str} (hw : IdentWF w) {c : Char} (hc : IsWs c) (r : Str) :
+    getToken (w ++ c :: r) = .ok (some (.ident w), 0, c :: r) :=
+  getToken_ident hw hc r
+
+example : IdentWF ['t', 'r', 'u', 'e', '1'] := ⟨by decide, by decide, by decide, by decide, by decide⟩
+example : IdentWF ['L'] := ⟨by decide, by decide, by decide, by decide, by decide⟩
+
+/-- (3) every registered operator other than the two comment openers, including the word operators
+    (`sizeof`, `sizeof...`, `new`, …) -/
+theorem C12_reread_operator {id : Nat} {sp : Str} (h : OpWF id sp) {c : Char} (hc : IsWs c) (r : Str) :
+    getToken (sp ++ c :: r) = .ok (some (.op id), 0, c :: r) :=
+  getToken_op h hc r
+
+example : OpWF 55 ['s', 'i', 'z', 'e', 'o', 'f', '.', '.', '.'] := ⟨by decide, by decide, by decide⟩
+example : ∀ id, id < registered.length → id ≠ lineCommentId → id ≠ blockCommentId → ∃ sp, OpWF id sp :=
+  fun id h h1 h2 => ⟨registered[id], ⟨by simp [h], h1, h2⟩⟩
+
+/-- (3) numeric literals: `true`/`false`, binary, hexadecimal, decimal/octal/floating with exponents and
+    any run of u/l/f suffix letters (a superset of the C grammar's suffixes) -/
+theorem C12_reread_number {w : Str} (h : NumWF w) {c : Char} (hc : IsWs c) (r : Str) :
+    getToken (w ++ c :: r) = .ok (some (.prim w), 0, c :: r) :=
+  getToken_prim h hc r
+
+example : NumWF ['1', '.', '5', 'e', '-', '3', 'f'] :=
+  NumWF.dec (m := ['1', '.', '5']) (by decide) ⟨'1', by decide, by decide⟩
+    (DecTail.exp (s1 := []) (e := 'e') (sg := ['-']) (ds := ['3']) (s2 := ['f'])
+      (by decide) (by decide) (by decide) (by decide) (by decide) (by decide))
+example : NumWF ['0', 'x', '1', 'F', 'u', 'L'] :=
+  NumWF.hex (ds := ['1', 'F']) (suf := ['u', 'L']) (Or.inl rfl) (by decide) (by decide) (by decide)
+
+/-- (3) string literals with prefix none/u8/u/U/L, escapes and udf -/
+theorem C12_reread_string {enc : Nat} {v udf : Str} (h : StrWF enc v udf) {c : Char} (hc : IsWs c) (r : Str) :
+    getToken (printTok (.str enc v udf) ++ c :: r) = .ok (some (.str enc v udf), 0, c :: r) :=
+  getToken_str h hc r
+
+example : StrWF encu8 [DQ, 'a'] ['_', 'k', 'm'] :=
+  ⟨Or.inr (by decide), Units.plain (by decide) (by decide) (Units.plain (by decide) (by decide) Units.nil),
+   Or.inr ⟨['k', 'm'], rfl, by decide⟩⟩
+
+/-- (3) raw string literals R / u8R / uR / UR / LR with any NUL-free value (printed with a delimiter, FL6) -/
+theorem C12_reread_rawstring {enc : Nat} {v udf : Str} (h : RawWF enc v udf) {c : Char} (hc : IsWs c) (r : Str) :
+    getToken (printTok (.str enc v udf) ++ c :: r) = .ok (some (.str enc v udf), 0, c :: r) :=
+  getToken_rawstr h hc r
+
+example : RawWF encR ['a', ')', DQ, 'b'] [] := ⟨by decide, by decide, Or.inl rfl⟩
+example : printTok (.str encR ['a', ')', '"', 'b'] []) = ['R', '"', '_', '(', 'a', ')', '"', 'b', ')', '_', '"'] := by
+  decide
+
+/-- (3) character literals with prefix none/u/U/L, escapes and udf -/
+theorem C12_reread_char {enc : Nat} {v udf : Str} (h : ChrWF enc v udf) {c : Char} (hc : IsWs c) (r : Str) :
+    getToken (printTok (.chr enc v udf) ++ c :: r) = .ok (some (.chr enc v udf), 0, c :: r) :=
+  getToken_chr h hc r
+
+example : ChrWF 0 ['\''] [] := ⟨Or.inl rfl, Units.plain (by decide) (by decide) Units.nil, Or.inl rfl⟩
+
+/-- (3) line comments, followed by the newline that ends them -/
+theorem C12_reread_line_comment {w : Str} (h : LineCommentWF w) (r : Str) :
+    getToken (w ++ '\n' :: r) = .ok (some (.comment w), 0, '\n' :: r) :=
+  getToken_lineComment h r
+
+example : LineCommentWF ['/', '/', ' ', 'a', '\\', '\n', 'b'] :=
+  ⟨⟨[' ', 'a', '\\', '\n', 'b'], rfl, Units.plain (by decide) (by decide) (Units.plain (by decide) (by decide)
+    (Units.pair (by decide) (Units.plain (by decide) (by decide) Units.nil)))⟩⟩
+
+/-- (3) block comments (`/*/ … */` and `/* \*/` included: FL4, FL5), followed by anything -/
+theorem C12_reread_block_comment {w : Str} (h : BlockCommentWF w) (r : Str) :
+    getToken (w ++ r) = .ok (some (.comment w), 0, r) :=
+  getToken_blockComment h r
+
+example : BlockCommentWF ['/', '*', '/', ' ', '\\', '*', '/'] := ⟨⟨['/', ' ', '\\'], rfl, by decide, by decide⟩⟩
+
+/-- (3) The round trip: a list of well-formed tokens, each followed by a non-empty separator over
+    `charcodes::whitespace` (a newline first after a line comment), printed by the token printers and
+    tokenized, gives back exactly those tokens, no errors, plus one newline token per newline of the
+    separators (and the end-of-source newline when the text ends in blanks). -/
+theorem C12_roundtrip {l : List (Tok × Str)} (h : ∀ p ∈ l, ItemWF p) :
+    tokenizeBytes (printSeq l) = .ok ⟨expectSeq l, 0⟩ :=
+  roundtrip_tokenize h
+
+/-- (3) … in particular the tokens other than newlines are the originals, in order -/
+theorem C12_roundtrip_tokens {l : List (Tok × Str)} (h : ∀ p ∈ l, ItemWF p) :
+    ∃ res, tokenizeBytes (printSeq l) = .ok res ∧ res.errors = 0 ∧
+      res.toks.filter (· != .newline) = l.map (·.1) := by
+  refine ⟨_, roundtrip_tokenize h, rfl, ?_⟩
+  have hmid : ∀ s : Str, (sepMid s).filter (· != .newline) = [] := by
+    intro s; induction s with
+    | nil => rfl
+    | cons c t ih => unfold sepMid; split <;> simp [ih]
+  have hend : ∀ s : Str, (sepEnd s).filter (· != .newline) = [] := by
+    intro s; induction s with
+    | nil => rfl
+    | cons c t ih => unfold sepEnd; split <;> (try split) <;> simp [ih]
+  have hnn : ∀ t, TokWF t → (t != .newline) = true := by
+    intro t ht; cases ht <;> simp
+  induction l with
+  | nil => rfl
+  | cons p l ih =>
+    obtain ⟨t, sep⟩ := p
+    have ht := (h (t, sep) (by simp)).tok
+    have ih' := ih (fun q hq => h q (by simp [hq]))
+    cases l with
+    | nil => simp [expectSeq, hnn t ht, hend]
+    | cons q l' => simp only [expectSeq] at ih' ⊢; simp [hnn t ht, hmid, ih']
+
+example : ItemWF (.comment ['/', '/', 'x'], ['\n', ' ']) :=
+  ⟨TokWF.lineComment ⟨⟨['x'], rfl, Units.plain (by decide) (by decide) Units.nil⟩⟩, by decide, by decide, fun _ => rfl⟩
+example : tokenizeBytes (printSeq [(.ident ['a'], [' ']), (.op 2, ['\n', '\t'])]) =
+    .ok ⟨[.ident ['a'], .op 2, .newline, .newline], 0⟩ := by decide
 
 end Occa.Lex.C12
